@@ -8,6 +8,8 @@ package sim
 // observed outcome is checked for legality and then adopted.
 
 import (
+	"encoding/json"
+	"unicode/utf8"
 	"bytes"
 	"errors"
 	"fmt"
@@ -790,7 +792,14 @@ func (m *Model) immutable(op string, x *Msg, it queue.Envelope, payload, headers
 		bad("payload", fmt.Sprintf("%d bytes %x", len(it.Payload), trunc(it.Payload)), fmt.Sprintf("%d bytes %x", len(x.Payload), trunc(x.Payload)))
 	}
 	if headers && !mapsEqual(it.Headers, x.Headers) {
-		bad("headers", it.Headers, x.Headers)
+		bad("headers", fmt.Sprintf("%q", it.Headers), fmt.Sprintf("%q", x.Headers))
+		if coercedUTF8(x.Headers, it.Headers) {
+			// recorded finding: the value came back with its bytes that are not UTF-8 replaced by
+			// U+FFFD. Named by backend and cause, so that any other change of a header is still
+			// reported; the model goes on with what the store holds.
+			vs[len(vs)-1].Loc = m.Cfg.Backend + "/header-value-not-utf8"
+			x.Headers = cloneMap(it.Headers)
+		}
 	}
 	if trace && !mapsEqual(it.Trace, x.Trace) {
 		bad("trace", it.Trace, x.Trace)
@@ -799,6 +808,41 @@ func (m *Model) immutable(op string, x *Msg, it queue.Envelope, payload, headers
 		bad("schema_version", it.SchemaVersion, x.SchemaVersion)
 	}
 	return vs
+}
+
+// coercedUTF8: got equals want except that every value of want that is not valid UTF-8 has had its
+// offending bytes replaced by U+FFFD (what encoding/json does to a Go string).
+func coercedUTF8(want, got map[string]string) bool {
+	if len(want) != len(got) {
+		return false
+	}
+	some := false
+	for k, w := range want {
+		g, ok := got[k]
+		if !ok {
+			return false
+		}
+		if g == w {
+			continue
+		}
+		if utf8.ValidString(w) || g != strings.ToValidUTF8(w, "\ufffd") && g != coerceJSON(w) {
+			return false
+		}
+		some = true
+	}
+	return some
+}
+
+func coerceJSON(s string) string {
+	b, err := json.Marshal(s)
+	if err != nil {
+		return s
+	}
+	var out string
+	if json.Unmarshal(b, &out) != nil {
+		return s
+	}
+	return out
 }
 
 func trunc(b []byte) []byte {
@@ -1417,7 +1461,7 @@ func tagRefusal(vs []Violation) []Violation {
 }
 
 // CheckStats compares Store.Stats() with the model.
-func (m *Model) CheckStats(st queue.Stats) []Violation {
+func (m *Model) CheckStats(st queue.Stats, now time.Time) []Violation {
 	var vs []Violation
 	for _, s := range []queue.State{queue.StateQueued, queue.StateLeased, queue.StateDelivered, queue.StateDead, queue.StateCanceled} {
 		if st.ByState[s] != m.count(s) {
@@ -1444,6 +1488,74 @@ func (m *Model) CheckStats(st queue.Stats) []Violation {
 	}
 	if !st.EarliestQueuedNextRun.Equal(earliest) && !(st.EarliestQueuedNextRun.IsZero() && earliest.IsZero()) {
 		vs = append(vs, viol("C13.stats.earliest", "C13", "Stats().EarliestQueuedNextRun=%v, model %v", st.EarliestQueuedNextRun, earliest))
+	}
+	// the two derived figures: how long the oldest queued message has been waiting, and how far the
+	// earliest due time lies behind the clock (zero while nothing is overdue)
+	var age, lag time.Duration
+	if !oldest.IsZero() && now.After(oldest) {
+		age = now.Sub(oldest)
+	}
+	if !earliest.IsZero() && now.After(earliest) {
+		lag = now.Sub(earliest)
+	}
+	if st.OldestQueuedAge != age {
+		vs = append(vs, viol("C13.stats.age", "C13", "Stats().OldestQueuedAge=%v, model %v", st.OldestQueuedAge, age))
+	}
+	if st.ReadyLag != lag {
+		vs = append(vs, viol("C13.stats.lag", "C13", "Stats().ReadyLag=%v, model %v", st.ReadyLag, lag))
+	}
+	// per-bucket backlog figures: every listed (route, target) bucket carries its own count and minimums,
+	// no bucket is listed twice, buckets come largest first
+	type agg struct {
+		n                int
+		oldest, earliest time.Time
+	}
+	buckets := map[string]*agg{}
+	for _, x := range m.Msgs {
+		if x.State != queue.StateQueued {
+			continue
+		}
+		k := x.Route + "\x00" + x.Target
+		a := buckets[k]
+		if a == nil {
+			a = &agg{}
+			buckets[k] = a
+		}
+		a.n++
+		if a.oldest.IsZero() || x.ReceivedAt.Before(a.oldest) {
+			a.oldest = x.ReceivedAt
+		}
+		if a.earliest.IsZero() || x.NextRunAt.Before(a.earliest) {
+			a.earliest = x.NextRunAt
+		}
+	}
+	seen := map[string]bool{}
+	minListed := -1
+	for i, b := range st.TopQueued {
+		k := b.Route + "\x00" + b.Target
+		a := buckets[k]
+		if a == nil || seen[k] {
+			vs = append(vs, viol("C13.stats.bucket", "C13", "Stats().TopQueued[%d] = %s|%s: no queued message there, or listed twice", i, b.Route, b.Target))
+			continue
+		}
+		seen[k] = true
+		if b.Queued != a.n || !b.OldestQueuedReceivedAt.Equal(a.oldest) || !b.EarliestQueuedNextRun.Equal(a.earliest) {
+			vs = append(vs, viol("C13.stats.bucket", "C13", "Stats().TopQueued[%d] = %s|%s queued=%d oldest=%v earliest=%v, model queued=%d oldest=%v earliest=%v", i, b.Route, b.Target, b.Queued, b.OldestQueuedReceivedAt, b.EarliestQueuedNextRun, a.n, a.oldest, a.earliest))
+		}
+		if i > 0 && st.TopQueued[i-1].Queued < b.Queued {
+			vs = append(vs, viol("C13.stats.bucket", "C13", "Stats().TopQueued is not ordered by backlog: entry %d has %d, entry %d has %d", i-1, st.TopQueued[i-1].Queued, i, b.Queued))
+		}
+		if minListed < 0 || b.Queued < minListed {
+			minListed = b.Queued
+		}
+	}
+	// a bucket left out is no larger than any bucket listed (the listing is a "top" list); with fewer
+	// buckets than the list has room for (the list never held more than the buckets there are) none is left out
+	for k, a := range buckets {
+		if !seen[k] && (len(st.TopQueued) == 0 || a.n > minListed) {
+			vs = append(vs, viol("C13.stats.bucket", "C13", "Stats().TopQueued (%d entries, smallest %d) leaves out bucket %q with %d queued messages", len(st.TopQueued), minListed, strings.ReplaceAll(k, "\x00", "|"), a.n))
+			break
+		}
 	}
 	return vs
 }
